@@ -449,30 +449,6 @@ where
     if ch.next().is_some() || ch.len() != 0 {
         fail!("channels_end", "yields beyond N");
     }
-    // iterator-protocol conformance of the channel iterators: nth, fold, count, last, for_each,
-    // skip, step_by, size_hint, len, next_back, nth_back, rfold, rev against plain next(), after
-    // any prefix of next()/nth() steps
-    {
-        let lean = LEAN.with(|l| l.get());
-        let mut rng = Rng::derive(seed, &[33, N as u64]);
-        let scripts = if lean { 5 } else { 48 };
-        let cs = case();
-        let mut n = checks::iterconf::check_iter("frame_channels", &cs, || f.channels(), rep, &mut rng, scripts);
-        n += checks::iterconf::check_exact_size("frame_channels", &cs, || f.channels(), rep);
-        n += checks::iterconf::check_iter("frame_channels_ref", &cs, || f.channels_ref(), rep, &mut rng, scripts);
-        n += checks::iterconf::check_exact_size("frame_channels_ref", &cs, || f.channels_ref(), rep);
-        n += checks::iterconf::check_double_ended("frame_channels_ref", &cs, || f.channels_ref(), rep, &mut rng, scripts);
-        if !lean {
-            // channels_mut needs exclusive access per instance: a leaked copy of the frame each time
-            let mk = || Box::leak(Box::new(f)).channels_mut();
-            n += checks::iterconf::check_exact_size("frame_channels_mut", &cs, mk, rep);
-            let mkv = || checks::iterconf::Forward(Box::leak(Box::new(f)).channels_mut(), |x: &mut S| *x);
-            n += checks::iterconf::check_iter("frame_channels_mut", &cs, mkv, rep, &mut rng, 12);
-            n += checks::iterconf::check_double_ended("frame_channels_mut", &cs, mkv, rep, &mut rng, 12);
-        }
-        ITER_SCRIPTS.with(|c| c.set(c.get() + n));
-        ev(n);
-    }
     // channels_ref / channels_mut, forwards and backwards
     if !f.channels_ref().zip(f.iter()).all(|(a, b)| a.same(*b)) || f.channels_ref().len() != N || !f.channels_ref().rev().zip(f.iter().rev()).all(|(a, b)| a.same(*b)) {
         fail!("channels_ref", "order mismatch");
@@ -643,6 +619,71 @@ fn all_frames(rep: &mut Report, seed: u64, thorough: bool, sel: &dyn Fn(usize) -
     }
 }
 
+/// Iterator-protocol conformance of the channel iterators: nth, fold, count, last, for_each, skip,
+/// step_by, size_hint, len, next_back, nth_back, rfold, rev against plain next(), after any prefix
+/// of next()/nth() steps. Instantiated for a hand-picked set of (format, N): the iterator types
+/// are generic over the frame, and every instantiation is compiled three times over.
+fn frame_iterators<S: AnyS, const N: usize>(rep: &mut Report, seed: u64)
+where
+    S::Signed: AnyS,
+    S::Float: AnyS,
+{
+    let name = S::NAME;
+    let case = || format!("kind=frameiter;fmt={};n={};seed={}", name, N, seed);
+    if LEAN.with(|l| l.get()) {
+        eprintln!("CASE {}", case());
+    }
+    let base = seed % 97;
+    let f: [S; N] = core::array::from_fn(|c| small::<S>(base + c as u64));
+    {
+        let lean = LEAN.with(|l| l.get());
+        let mut rng = Rng::derive(seed, &[33, N as u64]);
+        let scripts = if lean { 5 } else { 48 };
+        let cs = case();
+        let mut n = checks::iterconf::check_iter("frame_channels", &cs, || f.channels(), rep, &mut rng, scripts);
+        n += checks::iterconf::check_exact_size("frame_channels", &cs, || f.channels(), rep);
+        n += checks::iterconf::check_iter("frame_channels_ref", &cs, || f.channels_ref(), rep, &mut rng, scripts);
+        n += checks::iterconf::check_exact_size("frame_channels_ref", &cs, || f.channels_ref(), rep);
+        n += checks::iterconf::check_double_ended("frame_channels_ref", &cs, || f.channels_ref(), rep, &mut rng, scripts);
+        if !lean {
+            // channels_mut needs exclusive access per instance: a leaked copy of the frame each time
+            let mk = || Box::leak(Box::new(f)).channels_mut();
+            n += checks::iterconf::check_exact_size("frame_channels_mut", &cs, mk, rep);
+            let mkv = || checks::iterconf::Forward(Box::leak(Box::new(f)).channels_mut(), |x: &mut S| *x);
+            n += checks::iterconf::check_iter("frame_channels_mut", &cs, mkv, rep, &mut rng, 12);
+            n += checks::iterconf::check_double_ended("frame_channels_mut", &cs, mkv, rep, &mut rng, 12);
+        }
+        ITER_SCRIPTS.with(|c| c.set(c.get() + n));
+        ev(n);
+    }
+    if !LEAN.with(|l| l.get()) {
+        rep.nontrivial(vmon::hash_combine(vmon::hash_str(name), 0x6974_0000 + N as u64));
+    }
+}
+
+fn all_frame_iterators(rep: &mut Report, seed: u64, lean: bool) {
+    macro_rules! go {
+        ($S:ty, $n:literal) => {
+            if let Err(m) = vmon::catch(std::panic::AssertUnwindSafe(|| frame_iterators::<$S, $n>(rep, seed))) {
+                rep.violation("iter|frame_channels|panic", format!("[{}; {}]: panicked: {}", <$S as AnyS>::NAME, $n, m), format!("kind=frameiter;fmt={};n={};seed={}", <$S as AnyS>::NAME, $n, seed));
+            }
+        };
+    }
+    go!(i16, 2);
+    go!(f64, 5);
+    if !lean {
+        go!(i16, 1);
+        go!(i16, 3);
+        go!(i16, 8);
+        go!(i16, 32);
+        go!(f64, 1);
+        go!(f64, 2);
+        go!(f64, 32);
+        go!(I24, 4);
+        go!(u8, 7);
+    }
+}
+
 fn all_mono(rep: &mut Report, seed: u64) {
     check_mono::<i8>(rep, seed);
     check_mono::<i16>(rep, seed);
@@ -686,6 +727,7 @@ fn main() {
         all_samples(&mut rep, cli.seed, 200);
         all_mono(&mut rep, cli.seed);
         all_frames(&mut rep, cli.seed, true, &|_| true);
+        all_frame_iterators(&mut rep, cli.seed, false);
         flush(&mut rep);
         finish(&cli, rep, t0);
     }
@@ -697,6 +739,7 @@ fn main() {
             all_samples(&mut rep, cli.seed, cli.t(2_000, 60_000));
             all_mono(&mut rep, cli.seed);
             for s in 0..cli.t(3u64, 25u64) {
+                all_frame_iterators(&mut rep, cli.seed.wrapping_add(s * 31), false);
                 all_frames(&mut rep, cli.seed.wrapping_add(s * 31), cli.thorough() || s == 0, &|_| true);
             }
             rep.exhaustive(format!("every Frame method for every N in 1..=32 x formats {}; all 14 sample types as mono frames vs [S;1]; every value of the 8/16-bit formats for the sample-level identities", if cli.thorough() { "{u8,i16,I24,f64,u32,U48,i64,f32}" } else { "{u8,i16,I24,f64} (+4 more at the first seed)" }));
@@ -711,6 +754,7 @@ fn main() {
             all_samples(&mut rep, cli.seed, cli.t(1_000, 20_000));
             all_mono(&mut rep, cli.seed);
             all_frames(&mut rep, cli.seed, false, &|n| n <= 4 || n == 32);
+            all_frame_iterators(&mut rep, cli.seed, false);
             rep.note(format!("release stage: debug_assertions={}", cfg!(debug_assertions)));
         }
         "miri" => {
@@ -725,6 +769,9 @@ fn main() {
             }
             if sh == 0 {
                 all_mono(&mut rep, cli.seed);
+            }
+            if sh == 1 % ns {
+                all_frame_iterators(&mut rep, cli.seed, true);
             }
         }
         other => panic!("unknown stage {}", other),
